@@ -1594,7 +1594,8 @@ Section FrameRT.
       intros y Hy. apply Hsub. cbn [pre]. right. apply in_flat_map. exists k. split; assumption.
   Qed.
 
-  Theorem rt_frame_ok : res_map sort_tree (rt_frame t sp) = Ret (norm_tree true t).
+  (* the exact tree: attribute order of every node = column order restricted to its non-null cells *)
+  Theorem rt_frame_exact : rt_frame t sp = Ret (rebuild frame_attrs t).
   Proof.
     unfold rt_frame. rewrite tree_to_dataframe_full by assumption. cbn [bind]. fold rows.
     assert (Hcols : frame_columns rows <> []).
@@ -1608,14 +1609,18 @@ Section FrameRT.
     - rewrite <- (map_map (fun pr => (fst pr, frame_attrs (snd pr))) (fun z => (join sp (fst z), snd z))).
       rewrite rel_nodes_recs, map_map. cbn [fst snd].
       rewrite (add_paths_join_ok sp (tname t) _ Hsp) by (try reflexivity; apply rel_recs_clean; exact Hc).
-      cbn [res_map]. f_equal.
-      rewrite (rebuild_from_records frame_attrs t Hv (fun x _ => frame_attrs_keys_nodup x)).
-      + apply sort_rebuild_frame. intros y Hy. exact Hy.
-      + apply dict_update_present; [apply frame_attrs_keys_nodup|apply incl_refl].
+      f_equal.
+      apply (rebuild_from_records frame_attrs t Hv (fun x _ => frame_attrs_keys_nodup x)).
+      apply dict_update_present; [apply frame_attrs_keys_nodup|apply incl_refl].
     - intros pr _. apply fill_full_head.
     - intros pr _. apply fill_full_attrs.
     - intros pr Hpr. split; [apply Hne; exact Hpr|apply Hcl; exact Hpr].
     - apply rel_paths_nodup. exact Hv.
+  Qed.
+
+  Theorem rt_frame_ok : res_map sort_tree (rt_frame t sp) = Ret (norm_tree true t).
+  Proof.
+    rewrite rt_frame_exact. cbn [res_map]. f_equal. apply sort_rebuild_frame. intros y Hy. exact Hy.
   Qed.
 End FrameRT.
 
@@ -1748,4 +1753,241 @@ Proof.
   - intros [H1 H2]. apply andb_true_iff. split; [destruct sp; [contradiction|reflexivity]|].
     apply forallb_forall. intros n Hn. apply forallb_forall. intros ch Hch.
     apply negb_true_iff, memN_false. apply (H2 n Hn ch Hch).
+Qed.
+
+(* ---------------------------------------------------------------------------------------------- *)
+(* frames with nulls: the re-imported tree is the source tree without its null-valued attributes *)
+
+Lemma filter_filter_and {A} (p q : A -> bool) l : filter (fun x => p x && q x) l = filter q (filter p l).
+Proof.
+  induction l as [|x l IH]; [reflexivity|]. cbn [filter]. destruct (p x); cbn [andb filter]; [|exact IH].
+  destruct (q x); [f_equal|]; exact IH.
+Qed.
+
+Lemma norm_attrs_true_strip a :
+  norm_attrs true a = filter (fun kv => negb (is_null (snd kv))) (norm_attrs false a).
+Proof.
+  unfold norm_attrs. rewrite <- filter_filter_and. apply filter_ext. intros kv. cbn [negb orb].
+  rewrite andb_true_r. reflexivity.
+Qed.
+
+Lemma norm_true_strip t : norm_tree true t = strip_nulls (norm_tree false t).
+Proof.
+  induction t as [g n a ks IH] using tree_ind'. cbn [norm_tree strip_nulls]. f_equal.
+  - apply norm_attrs_true_strip.
+  - rewrite map_map. apply map_ext_in. intros k Hk. rewrite Forall_forall in IH. apply IH. exact Hk.
+Qed.
+
+Theorem rt_frame_nulls sp t : valid_tree t = true -> sep_free sp t = true -> frame_safe t = true ->
+  res_map sort_tree (rt_frame t sp) = Ret (strip_nulls (norm_tree false t)).
+Proof. intros Hv Hs Hf. rewrite rt_frame_ok by assumption. rewrite norm_true_strip. reflexivity. Qed.
+
+(* ---------------------------------------------------------------------------------------------- *)
+(* column order = order of first appearance *)
+
+Lemma first_seen_ext l : forall s1 s2, (forall x, In x s1 <-> In x s2) -> first_seen s1 l = first_seen s2 l.
+Proof.
+  induction l as [|k l IH]; intros s1 s2 H; [reflexivity|]. cbn [first_seen].
+  assert (E : existsb (str_eqb k) s1 = existsb (str_eqb k) s2).
+  { destruct (existsb (str_eqb k) s1) eqn:E1; symmetry.
+    - apply existsb_exists in E1 as [y [Hy Ey]]. apply existsb_exists. exists y. split; [apply H; exact Hy|exact Ey].
+    - destruct (existsb (str_eqb k) s2) eqn:E2; [|reflexivity]. apply existsb_exists in E2 as [y [Hy Ey]].
+      assert (E3 : existsb (str_eqb k) s1 = true) by (apply existsb_exists; exists y; split; [apply H; exact Hy|exact Ey]).
+      congruence. }
+  rewrite E. destruct (existsb (str_eqb k) s2); [apply IH; exact H|]. f_equal. apply IH.
+  intros x. cbn [In]. rewrite H. tauto.
+Qed.
+
+Lemma dict_set_keys_same {V} k (v : V) d : In k (map fst d) -> map fst (dict_set k v d) = map fst d.
+Proof.
+  induction d as [|[k' v'] d IH]; intros H; [destruct H|]. cbn [dict_set].
+  destruct (str_eqb k k') eqn:E; cbn [map fst].
+  - apply str_eqb_eq in E. subst. reflexivity.
+  - f_equal. apply IH. destruct H as [H|H]; [cbn in H; subst; rewrite str_eqb_refl in E; discriminate|exact H].
+Qed.
+
+Lemma existsb_str_in k l : existsb (str_eqb k) l = true <-> In k l.
+Proof.
+  split.
+  - intros H. apply existsb_exists in H as [y [Hy E]]. apply str_eqb_eq in E. subst. exact Hy.
+  - intros H. apply existsb_exists. exists k. split; [exact H|apply str_eqb_refl].
+Qed.
+
+Lemma dict_update_first_seen {V} (items : list (str * V)) : forall d,
+  map fst (dict_update d items) = map fst d ++ first_seen (map fst d) (map fst items).
+Proof.
+  induction items as [|[k v] items IH]; intros d.
+  - cbn. rewrite app_nil_r. reflexivity.
+  - unfold dict_update. cbn [fold_left fst snd]. fold (dict_update (dict_set k v d) items).
+    rewrite IH. cbn [map fst first_seen].
+    destruct (existsb (str_eqb k) (map fst d)) eqn:E.
+    + apply existsb_str_in in E. rewrite dict_set_keys_same by exact E. reflexivity.
+    + assert (Hk : ~ In k (map fst d)) by (intros Hin; apply existsb_str_in in Hin; congruence).
+      rewrite dict_set_fresh by exact Hk. rewrite map_app. cbn [map fst]. rewrite <- app_assoc. cbn [app].
+      f_equal. f_equal. apply first_seen_ext. intros x. rewrite in_app_iff. cbn [In]. tauto.
+Qed.
+
+Theorem frame_columns_first_seen rows : frame_columns rows = first_seen [] (map fst (concat rows)).
+Proof. unfold frame_columns, dict_of. apply (dict_update_first_seen (concat rows) []). Qed.
+
+(* ---------------------------------------------------------------------------------------------- *)
+(* attribute order after the frame round trip, exactly *)
+
+Lemma retree_rebuild f t : retree f t = rebuild f t.
+Proof.
+  reflexivity.
+Qed.
+
+Lemma export_columns_full sp t : valid_tree t = true -> frame_safe t = true ->
+  export_columns sp t = frame_columns (map (frame_full sp) (rel_nodes t)).
+Proof.
+  intros Hv Hf. unfold export_columns. rewrite nodes_under_root. f_equal. apply map_ext_in. intros pr Hpr.
+  apply rel_nodes_in_pre in Hpr. apply (frame_record_full sp pr).
+  - apply (valid_node_attrs t); assumption.
+  - apply (frame_safe_node t); assumption.
+Qed.
+
+Lemma reimported_attrs_frame sp t x : valid_tree t = true -> frame_safe t = true ->
+  reimported_attrs sp t x = frame_attrs sp t x.
+Proof. intros Hv Hf. unfold reimported_attrs. rewrite export_columns_full by assumption. reflexivity. Qed.
+
+Lemma rebuild_ext f1 f2 u : (forall x, f1 x = f2 x) -> rebuild f1 u = rebuild f2 u.
+Proof.
+  intros H. induction u as [g' n' a' ks' IHu] using tree_ind'. cbn [rebuild]. rewrite H. f_equal.
+  apply map_ext_in. intros k Hk. rewrite Forall_forall in IHu. apply IHu. exact Hk.
+Qed.
+
+Theorem rt_frame_order sp t : valid_tree t = true -> sep_free sp t = true -> frame_safe t = true ->
+  rt_frame t sp = Ret (retree (reimported_attrs sp t) t).
+Proof.
+  intros Hv Hs Hf. rewrite rt_frame_exact by assumption. f_equal.
+  change (retree (reimported_attrs sp t) t) with (rebuild (reimported_attrs sp t) t).
+  apply rebuild_ext. intros x. symmetry. apply reimported_attrs_frame; assumption.
+Qed.
+
+(* ---------------------------------------------------------------------------------------------- *)
+(* umbrella *)
+
+Theorem prop_all_model sp root p o : subtree_at root p <> None -> sep_free sp root = true ->
+  prop_C06_all root sp p o
+    (res_map canon_dict (tree_to_dict root sp p o)) (res_map canon_nested (tree_to_nested_dict root p o))
+    (res_map canon_rows (tree_to_dataframe root sp p o)) (res_map canon_rows (tree_to_polars root sp p o))
+    (rt_dict root sp) (rt_nested root) (rt_frame root sp) (rt_frame root sp) = true.
+Proof.
+  intros Hp Hs. unfold prop_C06_all, tree_to_polars.
+  rewrite prop_dict_model, prop_nested_model by exact Hp. rewrite prop_frame_model.
+  rewrite prop_rt_dict_multi, prop_rt_nested_model, prop_rt_frame_multi by exact Hs. reflexivity.
+Qed.
+
+Theorem prop_all_model_1 c root p o : subtree_at root p <> None ->
+  prop_C06_all root [c] p o
+    (res_map canon_dict (tree_to_dict root [c] p o)) (res_map canon_nested (tree_to_nested_dict root p o))
+    (res_map canon_rows (tree_to_dataframe root [c] p o)) (res_map canon_rows (tree_to_polars root [c] p o))
+    (rt_dict root [c]) (rt_nested root) (rt_frame root [c]) (rt_frame root [c]) = true.
+Proof.
+  intros Hp. unfold prop_C06_all, tree_to_polars.
+  rewrite prop_dict_model, prop_nested_model by exact Hp. rewrite prop_frame_model.
+  rewrite prop_rt_dict_model, prop_rt_nested_model, prop_rt_frame_model. reflexivity.
+Qed.
+
+(* ---------------------------------------------------------------------------------------------- *)
+(* partial export with max_depth only, from the root: the records are those of the tree cut below
+   max_depth, so re-importing them yields exactly that tree *)
+
+Definition depth_opts (m : nat) : opts := Opts s_name [] s_path [] true (S m) 0 false.
+
+Lemma nodes_under_deeper anc t c : In c (nodes_under anc t) -> length anc < c_depth c.
+Proof.
+  rewrite nodes_under_rel. intros H. apply in_map_iff in H as [pr [E Hpr]]. subst c. unfold c_depth. cbn [fst].
+  rewrite app_length. pose proof (rel_nodes_nonempty t) as Hn. rewrite Forall_forall in Hn.
+  specialize (Hn pr Hpr). destruct (fst pr); [contradiction|]. cbn [length]. lia.
+Qed.
+
+Lemma filter_none {A} (p : A -> bool) l : (forall x, In x l -> p x = false) -> filter p l = [].
+Proof.
+  induction l as [|x l IH]; intros H; [reflexivity|]. cbn [filter]. rewrite H by (left; reflexivity).
+  apply IH. intros y Hy. apply H. right. exact Hy.
+Qed.
+
+Lemma flat_map_map {A B C} (f : B -> list C) (h : A -> B) l : flat_map f (map h l) = flat_map (fun x => f (h x)) l.
+Proof. induction l as [|x l IH]; [reflexivity|]. cbn. rewrite IH. reflexivity. Qed.
+
+Lemma selected_depth m c : selected (depth_opts m) c = Nat.leb (c_depth c) (S m).
+Proof. unfold selected, depth_opts. cbn. rewrite !andb_true_r. reflexivity. Qed.
+
+Lemma dict_record_prune o p k x : dict_record o (p, prune k x) = dict_record o (p, x).
+Proof. destruct x as [g n a ks]. rewrite prune_unfold. reflexivity. Qed.
+
+Lemma records_pruned sp m t : forall anc, length anc <= m ->
+  map (fun c => (c_path sp c, dict_record full_opts c))
+      (filter (selected (depth_opts m)) (nodes_under anc t))
+  = map (fun c => (c_path sp c, dict_record full_opts c))
+        (nodes_under anc (prune (m - length anc) t)).
+Proof.
+  induction t as [g n a ks IH] using tree_ind'. intros anc Hlen.
+  rewrite prune_unfold, !nodes_under_unfold. cbn [filter]. rewrite selected_depth.
+  assert (Hd : Nat.leb (c_depth (ctx_of anc (T g n a ks))) (S m) = true).
+  { apply Nat.leb_le. unfold c_depth, ctx_of. cbn [fst]. rewrite app_length. cbn [length]. lia. }
+  rewrite Hd. cbn [map]. f_equal.
+  { rewrite filter_flat_map, map_flat_map.
+    destruct (m - length anc) as [|k'] eqn:Ek.
+    + cbn [flat_map map]. rewrite <- (flat_map_ext_Forall (fun _ => [])).
+      * induction ks; [reflexivity|]. cbn. inversion IH; subst. auto.
+      * apply Forall_forall. intros k Hk. rewrite filter_none; [reflexivity|].
+        intros c Hc. rewrite selected_depth. apply nodes_under_deeper in Hc. rewrite app_length in Hc. cbn [length] in Hc.
+        apply Nat.leb_gt. lia.
+    + rewrite map_flat_map, flat_map_map.
+      apply flat_map_ext_Forall. eapply Forall_impl; [|exact IH]. intros k Hk. cbn beta.
+      rewrite Hk by (rewrite app_length; cbn [length]; lia).
+      rewrite app_length. cbn [length]. replace (m - (length anc + 1)) with k' by lia. reflexivity. }
+Qed.
+
+Lemma prune_name k x : tname (prune k x) = tname x.
+Proof. destruct x. rewrite prune_unfold. reflexivity. Qed.
+
+Lemma pre_prune_forallb (P : tree -> bool) :
+  (forall g n a ks ks', P (T g n a ks) = true -> ks' = [] \/ map tname ks' = map tname ks -> P (T g n a ks') = true) ->
+  forall t k, forallb P (pre t) = true -> forallb P (pre (prune k t)) = true.
+Proof.
+  intros HP t. induction t as [g n a ks IH] using tree_ind'. intros k H.
+  rewrite prune_unfold. cbn [pre forallb] in *. apply andb_true_iff in H as [H1 H2]. apply andb_true_iff. split.
+  - apply (HP g n a ks); [exact H1|]. destruct k; [left; reflexivity|right].
+    rewrite map_map. apply map_ext. intros x. apply prune_name.
+  - destruct k as [|k']; [reflexivity|]. rewrite forallb_flat_map in *. rewrite forallb_forall in *.
+    intros x Hx. apply in_map_iff in Hx as [y [E Hy]]. subst x. rewrite Forall_forall in IH.
+    apply IH; [exact Hy|]. apply H2. exact Hy.
+Qed.
+
+Lemma valid_prune k t : valid_tree t = true -> valid_tree (prune k t) = true.
+Proof.
+  unfold valid_tree. apply pre_prune_forallb. intros g n a ks ks' H Hk. unfold node_ok in *.
+  cbn [tname tkids tattrs] in *. apply andb_true_iff in H as [H H3]. apply andb_true_iff in H as [H1 H2].
+  rewrite H1, H3. destruct Hk as [->|E]; [reflexivity|]. rewrite E, H2. reflexivity.
+Qed.
+
+Lemma sep_free_prune sp k t : sep_free sp t = true -> sep_free sp (prune k t) = true.
+Proof.
+  unfold sep_free. intros H. apply andb_true_iff in H as [H1 H2]. rewrite H1. cbn [andb].
+  revert H2. apply pre_prune_forallb. intros g n a ks ks' H _. exact H.
+Qed.
+
+Lemma tree_to_dict_depth sp m t :
+  tree_to_dict t sp [] (depth_opts m) = tree_to_dict (prune m t) sp [] full_opts.
+Proof.
+  rewrite !tree_to_dict_spec. unfold spec_dict, nodes_from. cbn [subtree_at].
+  change (anc_names t []) with (@nil str). change (anc_names (prune m t) []) with (@nil str).
+  f_equal. f_equal.
+  rewrite (filter_true (selected full_opts)) by apply selected_full.
+  change (map (fun c => (c_path sp c, dict_record (depth_opts m) c)))
+    with (map (fun c => (c_path sp c, dict_record full_opts c))).
+  rewrite (records_pruned sp m t []) by (cbn; lia). cbn [length]. rewrite Nat.sub_0_r. reflexivity.
+Qed.
+
+(* re-importing the max_depth export of the whole tree gives the tree cut below max_depth *)
+Theorem rt_dict_depth sp m t : valid_tree t = true -> sep_free sp t = true ->
+  bind (tree_to_dict t sp [] (depth_opts m)) (fun d => dict_to_tree d sp) = Ret (norm_tree false (prune m t)).
+Proof.
+  intros Hv Hs. rewrite tree_to_dict_depth. apply (rt_dict_ok sp (prune m t)).
+  - apply valid_prune. exact Hv.
+  - apply sep_free_prune. exact Hs.
 Qed.
